@@ -19,6 +19,7 @@ var (
 	mutFn   atomic.Pointer[func(kind, key string, n int)]
 	faultFn atomic.Pointer[func(path string, p []byte) (int, error, bool)]
 	freeFn  atomic.Pointer[func(root string, real uint64) uint64]
+	metaFn  atomic.Pointer[func(kind, key string) error]
 )
 
 // SetPoint installs (or, with nil, removes) the callback run when Point(name) is reached.
@@ -116,4 +117,22 @@ func DiskFree(root string, real uint64) uint64 {
 		return (*f)(root, real)
 	}
 	return real
+}
+
+// SetFaultMeta installs a fault injector for the metadata store (Badger) writes.
+func SetFaultMeta(f func(kind, key string) error) {
+	if f == nil {
+		metaFn.Store(nil)
+		return
+	}
+	metaFn.Store(&f)
+}
+
+// FaultMeta reports the error the metadata write (kind: bset, bdel, bbatch, btxset) of key must
+// fail with, or nil.
+func FaultMeta(kind, key string) error {
+	if f := metaFn.Load(); f != nil {
+		return (*f)(kind, key)
+	}
+	return nil
 }
